@@ -110,6 +110,33 @@ def handleDate : List SExp → Option String
     match x.int? with
     | some x => let t := fromColumnDatetime x; some s!"{t.days} {t.seconds} {t.micros}"
     | none => some "bad-op"
+  | [.atom "long2civil", x] =>
+    match x.int? with
+    | some x => some (match longToCivil x with
+      | some c => s!"ok {c.year} {c.month} {c.day} {c.hour} {c.minute} {c.second} {c.micro}"
+      | none => "err OverflowError")
+    | none => some "bad-op"
+  | [.atom "ord2ymd", n] =>
+    match n.nat? with
+    | some n => let r := ord2ymd n; some s!"{r.1} {r.2.1} {r.2.2}"
+    | none => some "bad-op"
+  | [.atom "bool", cls] =>
+    let x : Option BIn := match cls with
+      | .atom "true" => some (.obj true)
+      | .atom "false" => some (.obj false)
+      | .atom "strtrue" => some .strTrue
+      | .atom "strfalse" => some .strFalse
+      | .atom "strother" => some (.strOther true)
+      | .atom "strempty" => some (.strOther false)
+      | .atom "star" => some .star
+      | _ => none
+    match x with
+    | some x =>
+      let q := match boolParseQuery x with
+        | .every => "every"
+        | .term b => s!"term {showBool b}"
+      some s!"{showBool (objToBool x)} {showHex (boolToBytes x)} {showList showHex (boolIndex x)} {q}"
+    | none => some "bad-op"
   | _ => none
 
 /-- Protocol handler of family `c13` (requests arrive without the family token). -/
